@@ -244,18 +244,28 @@ def declared(item):
 
 
 def dependencies(prog):
-    """Pairs (i, j): item i must stay after item j (0-based). Conservative: two items that share a program-scope name
-    which at least one of them declares keep their original relative order; pinned items keep their place."""
+    """Pairs (i, j): item i must stay after item j (0-based).  An item that uses or declares a program-scope name stays
+    behind the FIRST item that declares the name (a use never moves in front of every declaration; declarations of one
+    name keep their order); an item that uses a name BEFORE its first declaration (implicit declaration) keeps that
+    order too; pinned items keep their place."""
     items = prog["items"]
     decl = [declared(it) for it in items]
     used = [set((r, base_of(k)) for r, k in all_ids(it) if r in ("f", "t", "g")) for it in items]
+    first = {}
+    for i in range(len(items)):
+        for nm in sorted(decl[i]):
+            first.setdefault(nm, i)
     deps = set()
     for i in range(len(items)):
         for j in range(i):
             if items[i]["pin"] or items[j]["pin"]:
                 deps.add((i, j))
-            elif (decl[j] & used[i]) or (decl[i] & used[j]):
+            elif any(first.get(nm) == j for nm in used[i]):
                 deps.add((i, j))
+            elif decl[i] & decl[j]:
+                deps.add((i, j))
+            elif any(first.get(nm) == i for nm in used[j]):
+                deps.add((i, j))      # j used the name before its first declaration in i
     return sorted(deps)
 
 
@@ -400,7 +410,8 @@ def fill_plan(prog, R):
             if kind == "b":
                 fl = [""] * n
             elif n >= 3 and j % 2 == 0:
-                fl = ["/* filler %d" % j] + [" * text %d" % k for k in range(n - 2)] + [" */"]
+                # a block comment of n lines (with an empty line inside when it has room for one)
+                fl = ["/* filler %d" % j] + ["" if (k == 0 and n >= 3) else " * text %d" % k for k in range(n - 2)] + [" */"]
             else:
                 fl = ["// filler %d.%d" % (j, k) for k in range(n)]
             plan.setdefault(p, [])
@@ -548,25 +559,33 @@ def project_pos(maps, line, col):
     return item, "%d.%d.~%d" % (item, li, sum(1 for c in maps["col"][line] if c[0] < col)), False
 
 
+def _norm_type(seq):
+    """cppcheck prints a type the way its token list holds it: no `signed` / `unsigned`, `long long` as `long`."""
+    out = [t for t in seq if t not in ("signed", "unsigned")]
+    out = [t for k, t in enumerate(out) if not (t == "long" and k > 0 and out[k - 1] == "long")]
+    return tuple(out) if out else ("int",)
+
+
 def group_spellings(prog):
-    """C06: (sugar, expanded) token spellings (names as written) of every use-site group, longest sugar first."""
-    res = []
+    """C06: [(spelling, canonical)] - every way a use site may be spelled inside a message (its sugar form, its expanded
+    form, the expanded form as cppcheck prints types) with ONE canonical spelling; longest spelling first."""
+    res = {}
 
     def sp(toks):
-        return [t if isinstance(t, str) else base_of(t[1]) for t in toks]
+        return tuple(x for u in toks for x in _MTOK.findall(u if isinstance(u, str) else base_of(u[1])))
 
     def walk(toks):
         for t in toks:
             if isinstance(t, list) and t[0] == "X":
-                pair = (tuple(x for u in sp(t[2]) for x in _MTOK.findall(u)), tuple(x for u in sp(t[3]) for x in _MTOK.findall(u)))
-                if pair not in res and pair[0] != pair[1]:
-                    res.append(pair)
+                sugar, exp = sp(t[2]), sp(t[3])
+                canon = ("<" + "_".join(exp) + ">",)
+                for v in (sugar, exp, _norm_type(exp)):
+                    res.setdefault(v, canon)
     for it in prog["items"]:
         for ls in [it["lines"]] + list(it["alt"].values()):
             for ln in ls:
                 walk(ln["toks"])
-    res.sort(key=lambda p: -len(p[0]))
-    return res
+    return sorted(res.items(), key=lambda p: (-len(p[0]), p[0]))
 
 
 _MTOK = re.compile(r"[A-Za-z_][A-Za-z0-9_]*|\d+|\S")
@@ -574,7 +593,7 @@ _MTOK = re.compile(r"[A-Za-z_][A-Za-z0-9_]*|\d+|\S")
 
 def project_text(maps, item, text):
     """A message as a token sequence: names -> spelling as written (through the rename map of the location's scope),
-    `line N` -> abstract line, a use site written in its sugar form -> its expanded form (C06)."""
+    `line N` -> abstract line, a use site (C06) in whatever form -> its canonical spelling."""
     loc = maps["names"].get(item, {})
     glob = maps["names"].get(-1, {})
 
